@@ -114,3 +114,57 @@ theorem enc_ascii (b : Bytes) : ∀ c ∈ enc b, c.toNat < 128 := by
 
 end B64
 end Mb
+
+namespace Mb
+namespace B64
+open Codec (Bytes)
+
+theorem quad_length {a b c d : UInt8} {t : Bytes} (h : quad a b c d = some t) : t.length = 3 := by
+  unfold quad at h
+  split at h
+  · simp at h; subst h; rfl
+  · simp at h
+
+theorem last_length {a b c d : UInt8} {t : Bytes} (h : last a b c d = some t) : t.length ≤ 3 := by
+  unfold last at h
+  split at h
+  · split at h
+    · split at h
+      · split at h
+        · simp at h; subst h; simp
+        · simp at h
+      · simp at h
+    · split at h
+      · split at h
+        · simp at h; subst h; simp
+        · simp at h
+      · simp at h
+  · rw [quad_length h]; omega
+
+/-- decoded output is never longer than 3/4 of the input -/
+theorem dec_length : ∀ (s : Bytes) (b : Bytes), dec s = some b → 4 * b.length ≤ 3 * s.length
+  | [], b, h => by simp [dec] at h; subst h; simp
+  | [_], b, h => by simp [dec] at h
+  | [_, _], b, h => by simp [dec] at h
+  | [_, _, _], b, h => by simp [dec] at h
+  | a :: b' :: c :: d :: rest, b, h => by
+    simp only [dec] at h
+    split at h
+    · have := last_length h
+      simp only [List.length_cons]
+      omega
+    · split at h
+      · simp at h
+      · rename_i t ht
+        split at h
+        · simp at h
+        · rename_i u hu
+          simp at h
+          subst h
+          have := dec_length rest u hu
+          have := quad_length ht
+          simp only [List.length_append, List.length_cons]
+          omega
+
+end B64
+end Mb
